@@ -104,6 +104,9 @@ func c10Concurrent(c *Ctx, up *world.Upstream) {
 			c.Inc("traces_validated_against_impl")
 			c.Distinct("distinct_nontrivial", "conc|"+store+"|"+sched.DescribeOrder(out.Order))
 			cs := map[string]any{"kind": "concurrent-browsers", "store": store, "thread_order": sched.DescribeOrder(out.Order), "choices": x.Choices()}
+			if concInconclusive(c, concAbortText(out)) {
+				return
+			}
 			if out.Aborted != "" {
 				c.Violate("C10/concurrent/"+out.Aborted, fmt.Sprintf("%s store: two browsers saving and loading concurrently: %s (%v)", store, out.Aborted, out.Blocked), 50, cs)
 				return
